@@ -356,3 +356,44 @@ Example c16_server_cookie_scope_nonvacuous :
   map (fun sc => (Cookie.c_name sc, Cookie.c_value sc, Cookie.c_domain sc, Cookie.c_path sc)) (Cookie.rs_cookies (Cookie.handle cfg r))
     = [(BytesLit.bs "sso.session.retry"%string, Cookie.VLit (BytesLit.bs "2"%string), BytesLit.bs "example.com"%string, BytesLit.bs "/"%string)].
 Proof. vm_compute. split; reflexivity. Qed.
+
+(** ** Clause 3, "never proxies to an upstream", on the router (Model/Router.v + Model/SsoWild.v; tied to the real router and
+    the real handler.SSOServer by the ssowild correspondence). For EVERY request - any method, any path (raw and decoded), any
+    Sec-Fetch-Mode / Sec-Fetch-Dest / Accept / Access-Control-Request-Method headers, any ingress configuration - an instance in
+    SSO-server mode does not hand the request to the reverse proxy ... *)
+From WW Require Model.Router Model.SsoWild Proofs.SsoWildP.
+
+Theorem c16_server_router_never_reaches_upstream : forall c url method raw path h,
+  Router.rc_mode c = Router.SsoServer -> SsoWild.sw_respond c url method raw path h <> SsoWild.SwUpstream.
+Proof. exact SsoWildP.sw_server_never_upstream. Qed.
+Print Assumptions c16_server_router_never_reaches_upstream.
+
+(** ... and what reaches its catch-all route is answered with the redirect to the configured default URL, whatever the request
+    looks like (reaching that route depends on method and path only, not on the headers). *)
+Theorem c16_server_unowned_requests_redirected : forall c url method raw path h nc,
+  Router.rc_mode c = Router.SsoServer -> Router.respond c method raw path h = Router.RHandler Router.EpWildcard nc ->
+  SsoWild.sw_respond c url method raw path h = SsoWild.SwRedirect 302 url.
+Proof. exact SsoWildP.sw_server_wildcard_redirects. Qed.
+Print Assumptions c16_server_unowned_requests_redirected.
+
+Theorem c16_wildcard_answer_ignores_headers : forall c url method raw path h h',
+  Router.route_req c method raw path = Router.OutWildcard ->
+  SsoWild.sw_respond c url method raw path h = SsoWild.sw_respond c url method raw path h'.
+Proof. exact SsoWildP.sw_respond_header_blind_on_wildcard. Qed.
+Print Assumptions c16_wildcard_answer_ignores_headers.
+
+(** Non-vacuity: POST /api/x with Sec-Fetch-Mode: cors, Sec-Fetch-Dest: empty (a credentialed fetch() from a page under the SSO
+    domain) reaches the catch-all route of an SSO server with its ingress at the root and is answered 302 to the default URL; the
+    same request on a standalone instance reaches the upstream. *)
+Example c16_server_unowned_nonvacuous :
+  let url := BytesLit.bs "https://www.example.com/"%string in
+  let h := {| Router.h_mode := BytesLit.bs "cors"%string; Router.h_dest := BytesLit.bs "empty"%string;
+              Router.h_accept := [BytesLit.bs "application/json"%string]; Router.h_acrm := [] |} in
+  let srv := {| Router.rc_mode := Router.SsoServer; Router.rc_idporten := false; Router.rc_prefixes := [[]] |} in
+  let sta := {| Router.rc_mode := Router.Standalone; Router.rc_idporten := false; Router.rc_prefixes := [[]] |} in
+  let m := BytesLit.bs "POST"%string in
+  let p := BytesLit.bs "/api/x"%string in
+  Router.respond srv m [] p h = Router.RHandler Router.EpWildcard false /\
+  SsoWild.sw_respond srv url m [] p h = SsoWild.SwRedirect 302 url /\
+  SsoWild.sw_respond sta url m [] p h = SsoWild.SwUpstream.
+Proof. vm_compute. repeat split. Qed.
